@@ -2,7 +2,7 @@ import ArgoVerif.Proofs.Rank
 import ArgoVerif.Gen.Consts
 import ArgoVerif.Proofs.XsCtx
 import ArgoVerif.Proofs.Replace
-import ArgoVerif.Proofs.RankConc4
+import ArgoVerif.Proofs.RankConc5
 import ArgoVerif.Proofs.XsLife5
 /-
 Props.C17 — ranks of live execution streams are pairwise distinct; stream life cycle.
@@ -1079,6 +1079,7 @@ theorem conc_critical_section_progress (s : CSt) (a : Actor) (h : Reach s) (hc :
   | start => rw [hpc] at hc; simp [inCrit] at hc
   | want => rw [hpc] at hc; simp [inCrit] at hc
   | spin => rw [hpc] at hc; simp [inCrit] at hc
+  | joining => rw [hpc] at hc; simp [inCrit] at hc
   | done => rw [hpc] at hc; simp [inCrit] at hc
   | chkFail =>
     exact ⟨.clear a, by simp [Model.RankConc.step, stepClear, hpc, hlk], by simp⟩
@@ -1175,7 +1176,7 @@ example :
        .ret 3 (.okNum 3), .insert 0, .clear 0, .ret 0 (.okRank 2), .ret 2 (.okRank 5),
        .call 0 (.setRank 3 5), .call 1 (.setRank 4 7), .call 2 (.createWithRank 5 (-2)), .pre 2,
        .ret 2 .errRank, .pre 0, .pre 1, .tas 0 false, .check 0, .clear 0, .ret 0 .errRank, .tas 1 false,
-       .check 1, .move 1, .clear 1, .ret 1 .ok, .call 0 (.free 2), .pre 0, .tas 0 false, .remove 0,
+       .check 1, .move 1, .clear 1, .ret 1 .ok, .call 0 (.free 2), .pre 0, .joined 0, .tas 0 false, .remove 0,
        .clear 0, .ret 0 .ok, .call 2 (.createWithRank 2 2), .pre 2, .tas 2 false, .check 2, .insert 2,
        .clear 2, .ret 2 (.okRank 2), .call 1 (.setRank 3 1), .pre 1, .ret 1 .ok]).map view
       = some ([0, 1, 2, 7], 4,
@@ -1212,6 +1213,73 @@ theorem conc_rejects_check_act_split :
 example :
     machine.run Model.RankConc.init
       [.call 0 (.createWithRank 2 0), .pre 0, .tas 0 false, .check 0, .clear 0, .ret 0 (.okRank 0)] = none := by
+  decide
+
+/-- **a stream keeps its rank, and is counted, until it has stopped** (any interleaving, every
+instant): a stream that is running or being joined — from its insertion until the join part of its
+`ABT_xstream_free` completed (main scheduler terminated, state TERMINATED, native thread parked) —
+is linked in the global list.  Hence two such streams never hold the same rank, no creator or
+`set_rank` can be granted the rank of one of them (`conc_request_iff_free`: granted only if no
+stream *in the list* holds it), and `num_xstreams` — what `ABT_xstream_get_num` reads — is at least
+the number of such streams.  A free that is on its way to, or inside, its removing critical section
+acts on a stream that has stopped: `xstream_return_rank` comes after `xstream_join`. -/
+theorem conc_running_streams_distinct_and_counted (s : CSt) (h : Reach s) :
+    (∀ p, s.running p = true → p ∈ live s.g) ∧
+    (∀ p q, s.running p = true → s.running q = true → p ≠ q → s.g.rank p ≠ s.g.rank q) ∧
+    (∀ L : List Ptr, L.Nodup → (∀ p ∈ L, s.running p = true) → (L.length : Int) ≤ s.g.num) ∧
+    (∀ a p, s.op a = .free p → afterJoin (s.pc a) = true → s.running p = false) := by
+  obtain ⟨hi, hr⟩ := invR_reachable s h
+  have hd := conc_ranks_distinct s h
+  refine ⟨hr.inlist, ?_, ?_, hr.stopped⟩
+  · intro p q hp hq hne e
+    exact hne (nodup_map_inj s.g.rank (live s.g) hd.2.1 p (hr.inlist p hp) q (hr.inlist q hq) e)
+  · intro L hn hall
+    have := nodup_subset_length L (live s.g) hn (fun x hx => hr.inlist x (hall x hx))
+    rw [hd.2.2.2.1]
+    exact_mod_cast this
+
+/-- the view of the examples below plus who is still running -/
+def viewR (s : CSt) : List Int × Int × List Out × List Bool :=
+  (ranks s.g, s.g.num, s.hist.map Prod.snd, [s.running 1, s.running 2, s.running 3])
+
+/-- a free blocked in its join (the stream is busy) while others call create_with_rank for its rank,
+create without a rank and get_num: the busy stream keeps rank 1 and is counted (the request for rank 1
+is refused, `-1` gives 2, get_num = 2 then 3); only after `joined` does the free take the lock and
+unlink it, and rank 1 becomes reusable -/
+example :
+    (machine.run Model.RankConc.init
+      [.call 0 (.create 2), .pre 0, .tas 0 false, .check 0, .insert 0, .clear 0, .ret 0 (.okRank 1),
+       .call 0 (.free 2), .pre 0,
+       .call 1 (.createWithRank 3 1), .pre 1, .tas 1 false, .check 1, .clear 1, .ret 1 .errRank,
+       .call 2 .getNum, .pre 2, .ret 2 (.okNum 2),
+       .call 1 (.create 3), .pre 1, .tas 1 false, .check 1, .insert 1, .clear 1, .ret 1 (.okRank 2),
+       .call 2 .getNum, .pre 2, .ret 2 (.okNum 3),
+       .joined 0, .tas 0 false, .remove 0, .clear 0, .ret 0 .ok,
+       .call 2 (.createWithRank 4 1), .pre 2, .tas 2 false, .check 2, .insert 2, .clear 2, .ret 2 (.okRank 1)]).map viewR
+      = some ([0, 1, 2], 3, [.okRank 1, .errRank, .okNum 2, .okRank 2, .okNum 3, .ok, .okRank 1],
+          [true, false, true]) := by decide
+
+/-- the hypotheses are satisfiable: a reachable state with a running primary, a running secondary
+stream whose free is blocked in the join, and a second running secondary stream -/
+example : ∃ s, Reach s ∧ s.pc 0 = .joining ∧ s.running 2 = true ∧ s.running 3 = true ∧ ranks s.g = [0, 1, 2] :=
+  ⟨_, ⟨[.call 0 (.create 2), .pre 0, .tas 0 false, .check 0, .insert 0, .clear 0, .ret 0 (.okRank 1),
+        .call 0 (.free 2), .pre 0, .call 1 (.create 3), .pre 1, .tas 1 false, .check 1, .insert 1, .clear 1], rfl⟩,
+    by decide, by decide, by decide, by decide⟩
+
+/-- **rejected: the rank is returned before the join** (`xstream_return_rank` at the beginning of
+`ABT_xstream_free`): a free that goes for the list lock while its target stream has not stopped is not
+a run of the model — neither the test_and_set, nor (had it the lock) the removal. -/
+theorem conc_rejects_remove_before_join :
+    machine.run Model.RankConc.init
+      [.call 0 (.create 2), .pre 0, .tas 0 false, .check 0, .insert 0, .clear 0, .ret 0 (.okRank 1),
+       .call 0 (.free 2), .pre 0, .tas 0 false] = none ∧
+    machine.run Model.RankConc.init
+      [.call 0 (.create 2), .pre 0, .tas 0 false, .check 0, .insert 0, .clear 0, .ret 0 (.okRank 1),
+       .call 0 (.free 2), .pre 0, .remove 0] = none ∧
+    -- with the join completed first the same history is a run
+    (machine.run Model.RankConc.init
+      [.call 0 (.create 2), .pre 0, .tas 0 false, .check 0, .insert 0, .clear 0, .ret 0 (.okRank 1),
+       .call 0 (.free 2), .pre 0, .joined 0, .tas 0 false, .remove 0, .clear 0, .ret 0 .ok]).isSome = true := by
   decide
 
 end Conc
